@@ -1,6 +1,7 @@
 import TextxVerif.Proofs.ObjLineCol
 import TextxVerif.Proofs.ObjSpanBuild
 import TextxVerif.Props.C05
+import TextxVerif.Proofs.ObjRefs
 /-!
 # C06 — object source spans and locations are exact
 
@@ -131,6 +132,68 @@ theorem C06_location_nchar (tr : Heap → Nat → Bool) (mm : Nat → List MetaA
   obtain ⟨_, _, _, _, _, hlt, _, _⟩ := C06_span tr mm root v s hwf h x o hx
   omega
 
+/-- **The slice is a slice of the input.**  `PT.wfB n` is what the harness checks on every real
+parse tree (`WF` plus: every terminal ends inside an input of length `n`).  Then every object of the
+built model ends inside the input, and `input[_tx_position : _tx_position_end]` has exactly
+`_tx_position_end - _tx_position` (> 0) characters. -/
+theorem C06_span_in_input (tr : Heap → Nat → Bool) (mm : Nat → List MetaAttr) (root : PT) (v : Val) (s : St) (n : Nat)
+    (hwf : root.wfB n = true) (h : build tr mm root = some (v, s)) (x : Nat) (o : HObj)
+    (hx : s.heap.get x = some o) (input : List Char) (hlen : input.length = n) :
+    o.posEnd ≤ n ∧ o.pos < o.posEnd ∧
+      ((input.drop o.pos).take (o.posEnd - o.pos)).length = o.posEnd - o.pos := by
+  obtain ⟨hW, hend⟩ := PT.wfB_WF hwf
+  obtain ⟨_, _, _, _, _, hlt, _, hle⟩ := C06_span tr mm root v s hW h x o hx
+  refine ⟨by omega, hlt, ?_⟩
+  rw [List.length_take, List.length_drop, hlen]
+  omega
+
+/-- **get_location, end to end.**  For the model built from a parse tree that passes `wfB`
+against the model's input — before or after reference resolution (`RefUpdates`) — and every
+object `x` contained in the model: `get_location(x)` succeeds and reports
+* the line = 1 + number of `\n` before `_tx_position`, the column = 1 + distance from the start of
+  that line (the position after the last `\n` before `_tx_position`, or 0),
+* `nchar` = the length of the slice `input[_tx_position : _tx_position_end]`, positive,
+* the file name of the model root,
+where `_tx_position` / `_tx_position_end` are the start of the first and the end of the last
+terminal of the common-rule node the object was created for, and the slice ends inside the input. -/
+theorem C06_location_built (tr : Heap → Nat → Bool) (mm : Nat → List MetaAttr) (root : PT) (r : Nat) (s : St)
+    (input : Nat → List Char) (file : Nat → Option Nat)
+    (hwf : root.wfB (input r).length = true) (h : build tr mm root = some (.obj r, s))
+    (h' : Heap) (hu : RefUpdates s.heap h')
+    (x fuel : Nat) (o : HObj) (hreach : Reach h' (fun _ => true) r x) (hx : h'.get x = some o) (hf : x < fuel) :
+    ∃ loc, getLocation h' input file fuel x = some loc ∧
+      loc.line = 1 + ((input r).take o.pos).count '\n' ∧
+      (∃ start : Nat, start ≤ o.pos ∧ loc.col = ((o.pos - start + 1 : Nat) : Int) ∧
+        (start = 0 ∨ (input r)[start - 1]? = some '\n') ∧ ∀ i, start ≤ i → i < o.pos → (input r)[i]? ≠ some '\n') ∧
+      loc.nchar = ((((input r).drop o.pos).take (o.posEnd - o.pos)).length : Int) ∧ 0 < loc.nchar ∧
+      loc.file = file r ∧ o.posEnd ≤ (input r).length ∧
+      ∃ cls ks, PT.Sub (.nt (.obj cls) ks) root ∧
+        o.pos = firstPos (PT.nt (.obj cls) ks).leaves ∧ o.posEnd = lastEnd (PT.nt (.obj cls) ks).leaves := by
+  have e := hu.same
+  have T := (C05_build_tree tr mm root _ s h).1
+  have T' := e.tree T
+  have hr : parentOf h' r = none := by rw [e.parent]; exact (C05_parent tr mm root r s h).1
+  -- the object of the heap before resolution has the same span
+  have hsp := e.span x
+  simp only [spanOf, hx, Option.map_some] at hsp
+  cases hg : s.heap.get x with
+  | none => rw [hg] at hsp; cases hsp
+  | some o0 =>
+    rw [hg] at hsp
+    simp only [Option.map_some, Option.some.injEq, Prod.mk.injEq] at hsp
+    obtain ⟨hW, _⟩ := PT.wfB_WF hwf
+    obtain ⟨cls, ks, hsub, hfirst, hlast, _, _, _⟩ := C06_span tr mm root _ s hW h x o0 hg
+    obtain ⟨hin, hlt, hslice⟩ := C06_span_in_input tr mm root _ s _ hwf h x o0 hg (input r) rfl
+    rw [← hsp.1] at hfirst hlt hslice
+    rw [← hsp.2] at hlast hin hlt hslice
+    have hlc := C06_linecol (input r) o.pos
+    refine ⟨_, C06_location T' input file r x fuel o hr hreach hx hf, hlc.1, hlc.2, ?_, ?_, rfl, hin,
+      cls, ks, hsub, hfirst, hlast⟩
+    · show (o.posEnd : Int) - (o.pos : Int) = _
+      rw [hslice]; omega
+    · show (0 : Int) < (o.posEnd : Int) - (o.pos : Int)
+      omega
+
 /-! ## non-vacuity: the model of `Props/C05.lean` with layout
 text `"m  a  b\n c // x\n d"`-like positions: root 0..14, kids at 2, 4, 6, 8 -/
 example : exTree.wfB 9 = true := by decide
@@ -139,6 +202,15 @@ example : (exHeap.map fun o => (o.pos, o.posEnd)) = [(0, 9), (2, 5), (4, 5), (6,
 example : posToLineCol "ab\ncd\r\n\nx".toList 4 = (2, 2) := by decide
 example : posToLineCol "ab\ncd\r\n\nx".toList 9 = (4, 2) := by decide
 example : getLocation exHeap (fun _ => "m a b\nc d".toList) (fun _ => some 7) 5 3
+    = some { line := 2, col := 1, nchar := 1, file := some 7 } := by decide
+
+/-! the hypotheses of `C06_location_built` on this model: the parse tree passes `wfB` against the input, object 3 is
+contained in the root, also after a reference was stored (`exRefAttr` of `Props/C05.lean`) -/
+example : exTree.wfB ("m a b\nc d".toList).length = true := by decide
+example : Reach exHeap (fun _ => true) 0 2 :=
+  Reach.down (c := 1) (by decide) rfl (Reach.down (c := 2) (by decide) rfl (Reach.here (by decide)))
+example : RefUpdates exHeap (exHeap.updAttr 0 9 (fun _ => .one (.obj 0))) := .step 0 9 _ (.refl _) exRefAttr
+example : getLocation (exHeap.updAttr 0 9 (fun _ => .one (.obj 0))) (fun _ => "m a b\nc d".toList) (fun _ => some 7) 5 3
     = some { line := 2, col := 1, nchar := 1, file := some 7 } := by decide
 
 /-! several models in one heap (a model that imports another one): objects 0-1 belong to the model rooted at 0
